@@ -272,6 +272,11 @@ func pipeDelivery(l *pipeLog, rng *rand.Rand, nkeys, nposters, nposts int, useCh
 	go func() {
 		defer wg.Done()
 		prng := rand.New(rand.NewSource(rng.Int63()))
+		if bulk {
+			// the application is away for more than a second while a whole paste is waiting: both queues are full, the
+			// rest of the input is held back - for as long as it takes, nothing is given up
+			time.Sleep(1300 * time.Millisecond)
+		}
 		for {
 			select {
 			case <-done:
